@@ -181,5 +181,192 @@ __CPROVER_ensures(VP_NO_LOCK_HELD)
 __CPROVER_ensures(g_close_calls == OLD(g_close_calls) + 1 && g_close_code == WS_ST_NORMAL && g_recvq.n == 0)
 __CPROVER_ensures(g_fin_calls == OLD(g_fin_calls) + OLD(g_recvq.n) + ((!OLD(SC_WS->closed) && SC_WS->ready && g_alloc_ok == OLD(g_alloc_ok)) ? 1 : 0))
 ;
+
+/* ---- start the next transmission ------------------------------------------
+ * Idle transmitter, established connection, something queued: the FIRST frame
+ * of txq becomes the frame in flight and ONE write of header + payload is
+ * submitted (payload entry only when there is a payload). */
+#define SW_GO (OLD(ws->txframe) == NULL && ws->ready && OLD(g_txq.n) > 0)
+/* transmit queue model well-formed: no head <=> empty; a second member is only known when there are two */
+#define WSR_TXQ_WF (WSF_TXQ_OK && (g_txq.n >= 2 || g_txq.next == NULL))
+#define WSR_TXQ_HEAD_PRE (WSR_TXQ_WF && (g_txq.n == 0 || (__CPROVER_is_fresh(g_txq.head, sizeof(ws_frame)) && g_txq.head->hlen <= 14)))
+/* what ws_start_write leaves behind when it took frame F (pointer expression) of the connection W */
+#define WSR_WRITING(W, F) ((W)->txframe == (F) && g_wr_aio == &(W)->txaio && g_wr_http == (W)->http && \
+	(W)->txaio.a_nio == ((F)->len > 0 ? 2u : 1u) && (W)->txaio.a_iov[0].iov_buf == (void *) &(F)->head[0] && (W)->txaio.a_iov[0].iov_len == (F)->hlen && \
+	((F)->len == 0 || ((W)->txaio.a_iov[1].iov_buf == (void *) (F)->buf && (W)->txaio.a_iov[1].iov_len == (F)->len)))
+static void ws_start_write(nni_ws *ws)
+__CPROVER_requires(__CPROVER_is_fresh(ws, sizeof(*ws)) && WSR_LISTS_PRE(ws) && WSF_TXQ_OK && WSR_TXQ_HEAD_PRE)
+/* busy, not established or nothing queued: nothing happens (assigns clause) */
+__CPROVER_assigns(ws->txframe == NULL && ws->ready && g_txq.n > 0: ws->txframe, WSF_TX_GHOSTS, WSF_IOV_OF(ws->txaio))
+__CPROVER_ensures(SW_GO ==> (WSR_WRITING(ws, OLD(g_txq.head)) && g_wr_calls == OLD(g_wr_calls) + 1 && g_txq.n == OLD(g_txq.n) - 1 && WSR_TXQ_WF && (OLD(g_txq.next) != NULL ==> g_txq.head == OLD(g_txq.next))))
+__CPROVER_ensures(SW_GO ==> (g_hclose_calls == OLD(g_hclose_calls) && g_start_calls == OLD(g_start_calls) && g_aio_close_calls == OLD(g_aio_close_calls) && g_aio_reset_calls == OLD(g_aio_reset_calls)))
+;
+
+/* ---- completion of a frame transmission (C01, C02, C03) -------------------
+ * ws_write_cb runs when the write of ws->txframe (header + payload, written in
+ * full by the HTTP layer or failed) has completed.  One contract text per
+ * situation (WCB_CASE), selected by the unit's defines; the case
+ * preconditions are disjoint:
+ *   0 nothing in flight      1 a CLOSE frame went out        2 the write failed
+ *   3 last frame of a submitted send went out                4 a non-final fragment went out (message mode)
+ *   5 a control frame (PING/PONG, no submitter) went out */
+#define WC ((nni_ws *) arg)
+#define WCF (WC->txframe)                 /* frame in flight (pre-state) */
+#define WCA (WC->txframe->aio)            /* its submitter (pre-state) */
+#define OWF OLD(WC->txframe)
+#define OWA OLD(WC->txframe->aio)
+#ifndef WCB_CASE
+#define WCB_CASE 0
+#endif
+#ifndef WCB_NQ
+#define WCB_NQ 0
+#endif
+#define WCB_BLK 200 /* size of a queued frame's heap payload block in the CLOSE units (constant: object sizes stay concrete) */
+/* a frame waiting in txq: real frame, owns its heap payload block if any; its submitter (if any) waits on sendq */
+#define WCB_QF_PRE(f) (__CPROVER_is_fresh(f, sizeof(ws_frame)) && (f)->hlen <= 14 && (((f)->asize == 0) || ((f)->asize == WCB_BLK && __CPROVER_is_fresh((f)->adata, WCB_BLK))) && ((f)->aio == NULL || (__CPROVER_is_fresh((f)->aio, sizeof(nni_aio)) && VP_AIO_ON((f)->aio, &WC->sendq))))
+#define WCB_HAS_AIO(f) ((f)->aio != NULL ? (size_t) 1 : (size_t) 0)
+#define WCB_HAS_BLK(f) ((f)->asize != 0 ? (size_t) 1 : (size_t) 0)
+/* the submitter's scatter/gather vector: at most 2 entries (message header + body: what ws_str_send builds), real buffers */
+#define WCB_IOV_PRE(A) ((A)->a_nio <= 2 && PT_ENT_PRE(A, 0) && PT_ENT_PRE(A, 1) && (A)->a_count <= (SIZE_MAX >> 4))
+#define WCB_NEXT_TOTAL ((size_t) g_u64)
+#define WCB_NEXT_FRAG (WC->fragsize > 0 && WCB_NEXT_TOTAL > WC->fragsize)
+#define WCB_NEXT_LEN (WCB_NEXT_FRAG ? WC->fragsize : WCB_NEXT_TOTAL)
+static void ws_write_cb(void *arg)
+__CPROVER_requires(__CPROVER_is_fresh(arg, sizeof(nni_ws)) && WSR_LISTS_PRE(WC) && WSR_NOLOCK_PRE && WSF_TXQ_OK && g_eq == 0)
+__CPROVER_requires(g_f1.first_at == g_fin_calls)
+#if WCB_CASE == 0
+__CPROVER_requires(WCF == NULL)
+#else
+__CPROVER_requires(WC->ready && __CPROVER_is_fresh(WCF, sizeof(ws_frame)) && WSR_TXQ_WF)
+#endif
+#if WCB_CASE == 1
+/* a CLOSE frame is a control frame: payload inside the frame, no submitter */
+__CPROVER_requires(WCF->op == WS_CLOSE && WCF->asize == 0 && WCF->aio == NULL && g_txq.n == WCB_NQ)
+#if WCB_NQ >= 1
+__CPROVER_requires(WCB_QF_PRE(g_txq.head))
+#endif
+#if WCB_NQ >= 2
+__CPROVER_requires(WCB_QF_PRE(g_txq.next))
+#endif
+/* ghost equations: g_n = number of queued frames that have a submitter (exactly those wait on sendq), g_hk = number of heap payload blocks */
+#if WCB_NQ == 0
+__CPROVER_requires(g_n == 0 && g_hk == 0 && g_sendq.n == 0)
+#elif WCB_NQ == 1
+__CPROVER_requires(g_n == WCB_HAS_AIO(g_txq.head) && g_hk == WCB_HAS_BLK(g_txq.head) && g_sendq.n == g_n && WSF_Q_OK(g_sendq) && (g_n == 1 ==> g_sendq.head == g_txq.head->aio))
+#else
+__CPROVER_requires(g_n == WCB_HAS_AIO(g_txq.head) + WCB_HAS_AIO(g_txq.next) && g_hk == WCB_HAS_BLK(g_txq.head) + WCB_HAS_BLK(g_txq.next) && g_sendq.n == g_n && WSF_Q_OK(g_sendq))
+__CPROVER_requires((g_n == 1 ==> (g_sendq.head == g_txq.head->aio || g_sendq.head == g_txq.next->aio)) && (g_n == 2 ==> ((g_sendq.head == g_txq.head->aio && g_sendq.next == g_txq.next->aio) || (g_sendq.head == g_txq.next->aio && g_sendq.next == g_txq.head->aio))))
+#endif
+#endif
+#if WCB_CASE >= 2
+__CPROVER_requires(WCF->op != WS_CLOSE && (WCF->asize == 0 || __CPROVER_is_fresh(WCF->adata, WCF->asize)) && WSR_TXQ_HEAD_PRE)
+#endif
+#if WCB_CASE == 2
+__CPROVER_requires(WC->txaio.a_result != 0 && (WCA == NULL || (__CPROVER_is_fresh(WCA, sizeof(nni_aio)) && VP_AIO_ON(WCA, &WC->sendq) && g_sendq.n >= 1 && WSF_Q_OK(g_sendq) && (g_sendq.n >= 2 || g_sendq.head == WCA))))
+#endif
+#if WCB_CASE == 3 || WCB_CASE == 4
+/* a data frame: its submitter waits on sendq; the frame carries the first frame->len bytes of what is left of the submitter's data */
+__CPROVER_requires(WC->txaio.a_result == 0 && __CPROVER_is_fresh(WCA, sizeof(nni_aio)) && VP_AIO_ON(WCA, &WC->sendq) && g_sendq.n >= 1 && WSF_Q_OK(g_sendq) && (g_sendq.n >= 2 || g_sendq.head == WCA))
+__CPROVER_requires(WCB_IOV_PRE(WCA) && WCF->len <= PT_TOTAL(WCA) && WC->fragsize <= NNI_MAXSZ)
+#endif
+#if WCB_CASE == 3
+__CPROVER_requires(WCF->final && (WCA->a_msg == NULL || (__CPROVER_is_fresh(WCA->a_msg, sizeof(nni_msg)) && __CPROVER_is_fresh(WCA->a_msg->vm_body, 1))))
+#endif
+#if WCB_CASE == 4
+/* a non-final fragment is a full fragment (ws_frame_prep_tx), message mode; g_u64 names what is left after it */
+__CPROVER_requires(!WCF->final && !WC->isstream && WC->fragsize > 0 && WCF->len == WC->fragsize && WCF->asize >= WCF->len && __CPROVER_pointer_in_range_dfcc(WCF->adata, WCF->buf, WCF->adata))
+__CPROVER_requires(g_u64 == PT_TOTAL(WCA) - WCF->len && g_txq.n <= 1)
+#endif
+#if WCB_CASE == 5
+__CPROVER_requires(WC->txaio.a_result == 0 && WCA == NULL && WCF->final)
+#endif
+__CPROVER_assigns(VP_SYNC_GHOSTS, WC->txframe, WC->closed, WC->wclose, WSF_TX_GHOSTS, WSF_FIN_GHOSTS, g_f1.first_aio, g_f1.first_rv, g_f1.first_count, g_sendq, WSF_ALLOC_GHOSTS, WSF_RAND_GHOSTS, g_rs, WSF_IOV_OF(WC->txaio)
+#if WCB_CASE >= 1
+	; __CPROVER_object_whole(WC->txframe)
+#endif
+#if WCB_CASE == 1 && WCB_NQ >= 1
+	; __CPROVER_object_whole(g_txq.head); g_txq.head->aio != NULL: __CPROVER_object_whole(g_txq.head->aio)
+#endif
+#if WCB_CASE == 1 && WCB_NQ >= 2
+	; __CPROVER_object_whole(g_txq.next); g_txq.next->aio != NULL: __CPROVER_object_whole(g_txq.next->aio)
+#endif
+#if WCB_CASE == 2
+	; WC->txframe->aio != NULL: __CPROVER_object_whole(WC->txframe->aio)
+#endif
+#if WCB_CASE == 3 || WCB_CASE == 4
+	; __CPROVER_object_whole(WC->txframe->aio)
+#endif
+#if WCB_CASE == 4
+	; WC->txframe->asize > 0: __CPROVER_object_whole(WC->txframe->adata)
+#endif
+	)
+#if WCB_CASE == 1
+__CPROVER_frees(WC->txframe
+#if WCB_NQ >= 1
+	, g_txq.head; g_txq.head->asize != 0: g_txq.head->adata
+#endif
+#if WCB_NQ >= 2
+	; g_txq.next; g_txq.next->asize != 0: g_txq.next->adata
+#endif
+	)
+#elif WCB_CASE == 3
+__CPROVER_frees(WC->txframe; WC->txframe->asize != 0: WC->txframe->adata; WC->txframe->aio->a_msg != NULL: WC->txframe->aio->a_msg, WC->txframe->aio->a_msg->vm_body)
+#elif WCB_CASE == 4
+__CPROVER_frees(WC->txframe->adata)
+#elif WCB_CASE >= 2
+__CPROVER_frees(WC->txframe; WC->txframe->asize != 0: WC->txframe->adata)
+#endif
+__CPROVER_ensures(VP_NO_LOCK_HELD)
+#if WCB_CASE == 0
+/* nothing in flight (aborted during close): nothing happens */
+__CPROVER_ensures(g_fin_calls == OLD(g_fin_calls) && VP_HEAP_DELTA(0, 0) && g_wr_calls == OLD(g_wr_calls) && WSF_TXQ_SAME && WC->txframe == NULL && g_sendq.n == OLD(g_sendq.n))
+#endif
+#if WCB_CASE == 1
+/* after our CLOSE frame nothing may be sent: EVERY frame still queued leaves txq and is released exactly once (with its heap payload block),
+ * every submitter among them is completed exactly once with NNG_ECLOSED; nothing is written any more */
+__CPROVER_ensures(WC->txframe == NULL && g_txq.n == 0 && g_wr_calls == OLD(g_wr_calls) && __CPROVER_was_freed(OWF))
+__CPROVER_ensures(g_free_calls == OLD(g_free_calls) + 1 + WCB_NQ + g_hk && g_alloc_ok == OLD(g_alloc_ok))
+__CPROVER_ensures(g_sendq.n == 0 && g_fin_calls == OLD(g_fin_calls) + g_n + ((WC->peer_closed && OLD(WC->wclose)) ? 1 : 0))
+__CPROVER_ensures(g_n > 0 ==> (g_f1.first_rv == NNG_ECLOSED && g_f1.first_count == 0))
+/* the peer's CLOSE has been seen already: the closing handshake is complete, the lingering close is completed (once) */
+__CPROVER_ensures((WC->peer_closed && OLD(WC->wclose)) ==> (!WC->wclose && g_fin_last == &WC->closeaio && g_fin_last_rv == 0))
+__CPROVER_ensures(!WC->peer_closed ==> (WC->wclose == OLD(WC->wclose) && (g_n > 0 ==> g_fin_last_rv == NNG_ECLOSED)))
+#endif
+#if WCB_CASE == 2
+/* the connection is broken: the submitter (if any) is completed exactly once with the error and leaves sendq, the frame is released,
+ * the connection is closed (no close frame can be sent), nothing more is written */
+__CPROVER_ensures(WC->txframe == NULL && WC->closed && g_hclose_calls == OLD(g_hclose_calls) + 1 && g_wr_calls == OLD(g_wr_calls) && WSF_TXQ_SAME)
+__CPROVER_ensures(g_free_calls == OLD(g_free_calls) + 1 + (OLD(WC->txframe->asize) != 0 ? 1 : 0) && __CPROVER_was_freed(OWF))
+__CPROVER_ensures(OWA != NULL ? (g_fin_calls == OLD(g_fin_calls) + 1 && g_fin_last == OWA && g_fin_last_rv == (int) OLD(WC->txaio.a_result) && g_sendq.n == OLD(g_sendq.n) - 1 && OWA->a_prov_node.ln_next == NULL) : (g_fin_calls == OLD(g_fin_calls) && g_sendq.n == OLD(g_sendq.n)))
+#endif
+#if WCB_CASE == 3
+/* the send is done: the submitter leaves sendq and is completed exactly once, successfully, count = everything sent for it
+ * (what earlier fragments carried + this frame's payload); its message (message mode) is released, not leaked; the frame is released */
+__CPROVER_ensures(g_fin_calls == OLD(g_fin_calls) + 1 && g_fin_last == OWA && g_fin_last_rv == 0 && g_fin_last_count == OLD(WC->txframe->aio->a_count) + OLD(WC->txframe->len) && OWA->a_count == g_fin_last_count)
+__CPROVER_ensures(g_sendq.n == OLD(g_sendq.n) - 1 && OWA->a_prov_node.ln_next == NULL && OWA->a_msg == NULL && g_msgfree_calls == OLD(g_msgfree_calls) + (OLD(WC->txframe->aio->a_msg) != NULL ? 1 : 0))
+__CPROVER_ensures(g_free_calls == OLD(g_free_calls) + 1 + (OLD(WC->txframe->asize) != 0 ? 1 : 0) && g_alloc_ok == OLD(g_alloc_ok) && __CPROVER_was_freed(OWF) && !WC->closed == !OLD(WC->closed) && g_hclose_calls == OLD(g_hclose_calls))
+#endif
+#if WCB_CASE == 5
+__CPROVER_ensures(g_fin_calls == OLD(g_fin_calls) && g_sendq.n == OLD(g_sendq.n) && g_free_calls == OLD(g_free_calls) + 1 + (OLD(WC->txframe->asize) != 0 ? 1 : 0) && __CPROVER_was_freed(OWF) && g_hclose_calls == OLD(g_hclose_calls))
+#endif
+#if WCB_CASE == 3 || WCB_CASE == 5
+/* the transmitter goes on with the first queued frame, if any */
+__CPROVER_ensures(OLD(g_txq.n) > 0 ? (WSR_WRITING(WC, OLD(g_txq.head)) && g_wr_calls == OLD(g_wr_calls) + 1 && g_txq.n == OLD(g_txq.n) - 1) : (WC->txframe == NULL && g_wr_calls == OLD(g_wr_calls) && g_txq.n == 0))
+#endif
+#if WCB_CASE == 4
+/* more of the message remains: nobody is completed; the submitter's vector is advanced by EXACTLY the payload that went out (no byte is
+ * framed twice, none skipped) and its count grows by it */
+__CPROVER_ensures(g_fin_calls == OLD(g_fin_calls) && g_sendq.n == OLD(g_sendq.n) && OWF->aio == OWA && VP_AIO_ON(OWA, &WC->sendq) && OWA->a_count == OLD(WC->txframe->aio->a_count) + OLD(WC->txframe->len))
+__CPROVER_ensures(OLD(WC->txframe->len) < OLD(WC->txframe->aio->a_iov[0].iov_len) ?
+	(OWA->a_nio == OLD(WC->txframe->aio->a_nio) && OWA->a_iov[0].iov_buf == (void *) ((uint8_t *) OLD(WC->txframe->aio->a_iov[0].iov_buf) + OLD(WC->txframe->len)) && OWA->a_iov[0].iov_len == OLD(WC->txframe->aio->a_iov[0].iov_len) - OLD(WC->txframe->len)) :
+	(OWA->a_nio == 1 && OWA->a_iov[0].iov_buf == (void *) ((uint8_t *) OLD(WC->txframe->aio->a_iov[1].iov_buf) + (OLD(WC->txframe->len) - OLD(WC->txframe->aio->a_iov[0].iov_len))) && OWA->a_iov[0].iov_len == OLD(WC->txframe->aio->a_iov[1].iov_len) - (OLD(WC->txframe->len) - OLD(WC->txframe->aio->a_iov[0].iov_len))))
+/* the SAME frame object is re-framed for the next piece: a continuation frame (5.4) of min(rest, fragment size) bytes, FIN iff it is the rest;
+ * no allocation (the buffer of the first fragment is reused), the frame is not released */
+__CPROVER_ensures(OWF->len == WCB_NEXT_LEN && (unsigned) OWF->op == WS_OP_CONT && (OWF->head[0] & 0x7fu) == WS_OP_CONT && OWF->final == !WCB_NEXT_FRAG && ((OWF->head[0] & 0x80u) != 0) == !WCB_NEXT_FRAG && VP_HEAP_DELTA(0, 0) && OWF->asize == OLD(WC->txframe->asize))
+/* it goes to the END of txq (frames of other senders may interleave); the transmitter goes on with the first queued frame */
+__CPROVER_ensures(OLD(g_txq.n) == 0 ? (WSR_WRITING(WC, OWF) && g_txq.n == 0) : (WSR_WRITING(WC, OLD(g_txq.head)) && g_txq.n == 1 && g_txq.head == OWF))
+__CPROVER_ensures(g_wr_calls == OLD(g_wr_calls) + 1 && g_hclose_calls == OLD(g_hclose_calls) && !WC->closed == !OLD(WC->closed))
+#endif
+;
 /* clang-format on */
 #endif
